@@ -45,6 +45,9 @@ def apply_op(d, op, rng_vals):
         except Exception:
             pass
         return d
+    if op == 'reorder':
+        # the same events in another order (sorted by a channel, or reversed): same shape, other first and last events
+        return d[np.argsort(np.asarray(d[:, a % D]), kind='stable')] if a % 2 else d[::-1]
     if op == 'column':
         return d[:, d.channels[a % D]] if a % 2 else d[:, b % D]          # a one-channel, one-dimensional state
     if op == 'row':
@@ -97,6 +100,15 @@ class Prop(common.PropertyCheck):
                     if si % 3 == 2:
                         c['oddpath'] = 1 + len(ops)
                     yield c
+        # samples with a time channel: derived quantities are read, then the events are re-ordered / converted (same shape), then the sample is duplicated
+        for si in range(self.budget(3, 20)):
+            spec = samples.spec_rich(rng, N=[12, 7, 3][si % 3], D=rng.randrange(3, 6), datatype=['I', 'F'][si % 2], time_channel=True)
+            spec['extra'] = [kv for kv in spec['extra'] if kv[0] != '$TIMESTEP'] + [['$TIMESTEP', '0.01']]
+            for ops in (['reads', 'reorder'], ['reads', 'reorder', 'reads'], ['reorder', 'reads', 'reorder'], ['reads', 'to_mef'], ['reads', 'to_rfi', 'reorder'], ['reads', 'reorder', 'slice_ch']):
+                for vi in range(2):
+                    vals = [[2 * rng.randrange(0, 32) + (1 - vi), rng.randrange(0, 64) | (1 << (len(spec['names']) - 1))] for _ in ops]
+                    for how in DUPS:
+                        yield {'k': 'dup', 'spec': spec, 'ops': ops, 'vals': vals, 'how': how}
         for _ in range(self.budget(30, 300)):
             sp = fcsgen.gen_spec(rng, max_events=6, max_par=3)
             if sp['datatype'] == 'I':
@@ -142,7 +154,16 @@ class Prop(common.PropertyCheck):
             e = duplicate(d, case['how'])
             fp1 = fpm.sample_fp(e)
             fp0_after = fpm.sample_fp(d)
-            res = {'orig': fp0, 'dup': fp1, 'orig_after_dup': fp0_after, 'is_sample': isinstance(e, FlowCal.io.FCSData),
+            def derived(x):
+                # public quantities computed from events and keywords
+                out = []
+                for f in (lambda: x.acquisition_time, lambda: x.acquisition_start_time, lambda: x.acquisition_end_time, lambda: x.time_step):
+                    try:
+                        out.append(fpm.fval(f()))
+                    except Exception as ex:
+                        out.append('raised ' + type(ex).__name__)
+                return out
+            res = {'derived': [derived(d), derived(e)], 'orig': fp0, 'dup': fp1, 'orig_after_dup': fp0_after, 'is_sample': isinstance(e, FlowCal.io.FCSData),
                    'changed_from_fresh': [f for (f, v), (_, w) in zip(fp0['state'], fpm.state(fresh)) if v != w and f != 'infile']}
             # independence: mutate the duplicate, the original must not notice (and vice versa)
             ind = {}
@@ -269,6 +290,8 @@ class Prop(common.PropertyCheck):
         for (f, v), (_, w) in zip(impl['orig']['state'], impl['dup']['state']):
             if v != w:
                 return '%s after %s: attribute %s differs: %s vs %s' % (how, case['ops'], f, w[:80], v[:80])
+        if impl['derived'][0] != impl['derived'][1]:
+            return '%s after %s: acquisition time / start / end / time step are %s, the original has %s' % (how, case['ops'], impl['derived'][1], impl['derived'][0])
         if impl['orig'].get('extra') != impl['dup'].get('extra'):
             return '%s after %s: attributes outside the modelled state differ: %s vs %s' % (how, case['ops'], impl['dup'].get('extra'), impl['orig'].get('extra'))
         ind = impl['indep']
